@@ -1,4 +1,4 @@
-from . import tables, c15, traces, c12, c04, c06, c09, c07, c18
+from . import tables, c15, traces, c12, c04, c06, c09, c07, c18, c05
 
 REGISTRY = {
     'C01': traces.C01,
@@ -12,6 +12,7 @@ REGISTRY = {
     'C17': traces.C17,
     'DEV': traces.DevAll,
     'C04': c04.C04,
+    'C05': c05.C05,
     'C06': c06.C06,
     'C07': c07.C07,
     'C08': tables.C08,
